@@ -225,7 +225,7 @@ def _sha(text_bytes, alg):
     return getattr(hashlib, alg)(text_bytes).hexdigest()
 
 
-PNAME_SCHEMES = ['seq', 'seq', 'countdown', 'unpadded', 'hashlike', 'timestamp']
+PNAME_SCHEMES = ['seq', 'seq', 'countdown', 'unpadded', 'hashlike', 'timestamp', 'urlish']
 
 
 def pname(scheme, i):
@@ -237,6 +237,11 @@ def pname(scheme, i):
         return 'p%d' % (9 - i)                  # later patches sort EARLIER
     if scheme == 'unpadded':
         return 'p%d' % (8 + i)                  # p8 p9 p10 p11: numeric order is not text order
+    if scheme == 'urlish':
+        # characters that are literal inside a URL path but mean something elsewhere in a URL (a colon after a letter-led word
+        # reads as a scheme when the name is taken for a reference; '+', '&', '=', ';', ',', '@', '~') - the name is a path
+        # component under <remote>.diff/, nothing else.  ('%', '?', '#' are not literal in a URL and stay out.)
+        return ['pT-2024-05-01:0204.33', 'p+x&y=1', 'pa:b', 'p,x@y', 'p;x', 'p~z'][i % 6] + ('' if i < 6 else str(i))
     if scheme == 'hashlike':
         return 'p' + hashlib.md5(b'%d' % i).hexdigest()[:10]
     return 'p2024-0%d-%02d-%04d.%02d' % (1 + i // 3, 28 - 9 * (i % 3), 1200 - 100 * i, i)   # time stamps, not monotone as text
